@@ -452,7 +452,7 @@ def gen_compress_consts(bdir):
 class C07(Prop):
     id = "C07"
     title = "calls reach the right function and respect visibility, whatever came before"
-    lean_modules = ["NV.C07.Props", "NV.C07.Witness", "NV.C07.OracleTests", "NV.C07.LemmasCompress", "NV.C07.Tie", "NV.C07.LemmasBinary", "NV.C07.LemmasBuild3", "NV.C07.LemmasBinary2", "NV.C07.LemmasArgs", "NV.C07.LemmasFrames"]
+    lean_modules = ["NV.C07.Props", "NV.C07.Witness", "NV.C07.OracleTests", "NV.C07.LemmasCompress", "NV.C07.Tie", "NV.C07.LemmasBinary", "NV.C07.LemmasBuild3", "NV.C07.LemmasBinary2", "NV.C07.LemmasArgs", "NV.C07.LemmasFrames", "NV.C07.LemmasReuse"]
     theorems = ["NV.C07.visibility_table", "NV.C07.visibility_any_flags", "NV.C07.visibility_lifted",
                 "NV.C07.driver_origins_never_refused", "NV.C07.bsearch_correct", "NV.C07.find_function_correct",
                 "NV.C07.find_offsets_are_path_sums", "NV.C07.cache_transparent_step", "NV.C07.cache_transparent",
@@ -466,10 +466,12 @@ class C07(Prop):
                 "NV.C07.resort_slot_entry", "NV.C07.inversePerm_getElem", "NV.C07.built_fio_sorted",
                 "NV.C07.cmp_literals_are_source", "NV.C07.resort_sorted", "NV.C07.sortIdx_pairwise",
                 "NV.C07.setupVariables_length", "NV.C07.setupVariables_get", "NV.C07.setupVariables_is_spec",
-                "NV.C07.every_frame_sees_its_own_block", "NV.C07.calleeOf_entered", "NV.C07.applyLow_call_is_find"]
+                "NV.C07.every_frame_sees_its_own_block", "NV.C07.calleeOf_entered", "NV.C07.applyLow_call_is_find",
+                "NV.C07.applyLow_invId", "NV.C07.findFunction_reuse", "NV.C07.invId_reuse", "NV.C07.cache_transparent_across_reuse"]
     witness_theorems = ["NV.C07.Witness.old_cache_not_transparent", "NV.C07.Witness.origin_stored_once_runs_static",
                         "NV.C07.Witness.old_compress_overflow_branch_loses_entries",
-                        "NV.C07.Witness.temp_instead_of_inverse_misdispatches"]
+                        "NV.C07.Witness.temp_instead_of_inverse_misdispatches",
+                        "NV.C07.Witness.no_id_test_answers_from_a_freed_program"]
     consts = [("applyCacheBits", "APPLY_CACHE_BITS"),
               ("nameInherited", "NAME_INHERITED"), ("nameUndefined", "NAME_UNDEFINED"),
               ("namePrototype", "NAME_PROTOTYPE"), ("nameDefByInherit", "NAME_DEF_BY_INHERIT"),
@@ -535,8 +537,9 @@ class C07(Prop):
                    "argument count normalisation (setup_variables: too few / exact / too many arguments from call_other, applies, "
                    "function pointers) IS modelled and proved equal to the specification; true varargs functions "
                    "(setup_varargs_variables, `mixed *rest...`), argument TYPES and pointer arguments (merge_arg_lists) are not",
-                   "program deallocation and reuse of a program_t address while a cache entry still names it (the id test of the "
-                   "hit path): cannot be exercised under ASan, whose quarantine never hands the address out again",
+                   "program deallocation and reuse of a program_t address while a cache entry still names it (the id test of the hit "
+                   "path) IS modelled and proved (cache_transparent_across_reuse, witness without the id test) but NOT compared with "
+                   "the real driver: under ASan the quarantine never hands a freed address out again",
                    "find_function_by_name / ffbn_recurse / function_exists (second copy of the search)",
                    "programs loaded from saved binaries: sort_function_table IS modelled (permuteProgram / resortProgram) with "
                    "`permute_slot_entry` / `resort_slot_entry` proved for every permutation, and reloaded programs are compared "
